@@ -43,6 +43,10 @@ class Contract:
     def result(self, E, a, old):
         raise NotImplementedError("result() needed to use %s at a call site" % self.key)
 
+    def has_result(self):
+        """contracts without a call-site role (no result()) are inlined at call sites"""
+        return type(self).result is not Contract.result
+
     def signals(self, E, a, exc, old):
         """exceptional postcondition: return None if `exc` (class name) must not be raised, else
         a dict of named conditions that must hold when it is"""
@@ -130,6 +134,10 @@ def verify_function(repo, contracts, c, registry=None, scope=None, opts=None):
                 env = Frame(func.parent, func.module)
                 env.locals.update(c.closure_env(E, a))
             self_obj = params.pop("self", None)
+            kwname = func.node.args.kwarg.arg if func.node.args.kwarg is not None else None
+            if kwname is not None and kwname in params:
+                kwd = params.pop(kwname)
+                params.update(kwd)
             exc = None
             try:
                 res = E.call_repo_function(func, [], params, closure_env=env, self_obj=self_obj)
